@@ -59,27 +59,41 @@ theorem WInv.writeU32 {a : BinArchive} {pos : Nat} {cs : List Cell} (h : WInv a 
     simp [validateCell_ok (by decide : 0 < 4) hfit, h.little, Endian.enc]
   · unfold size; exact length_patch _ _ _ (by rw [length_leBytes]; exact hfit)
 
+/-- Writing bytes that fit overwrites the range at the cursor.  (The proof covers both forms of
+the shared `Writer.writeBytes`: byte-by-byte and one positional range write.) -/
 theorem writeBytes_patch (a : BinArchive) :
     ∀ (v : Bytes) (pos : Nat), pos + v.length ≤ a.size →
       Writer.writeBytes ⟨a, pos⟩ v = (⟨{ a with data := patch a.data pos v }, pos + v.length⟩, .ok ()) := by
-  intro v
-  induction v generalizing a with
-  | nil => intro pos _; simp [Writer.writeBytes, patch_nil]
-  | cons b v ih =>
-    intro pos h
-    simp only [List.length_cons] at h
-    unfold Writer.writeBytes Writer.writeU8 Writer.step BinArchive.writeU8 validateAddress
-    have h1 : ¬ pos ≥ a.size := by omega
-    simp only [h1, Bool.false_and, Bool.not_false, Bool.true_and, decide_false, Bool.or_self]
-    simp only [Bool.false_eq_true, if_false, UInt8.ofNat_toNat]
-    have hl : ({ a with data := patch a.data pos [b] } : BinArchive).size = a.size := by
-      unfold size; exact length_patch _ _ _ (by simp; unfold size at h; omega)
-    rw [ih _ (pos + 1) (by rw [hl]; omega)]
-    simp only [Prod.mk.injEq, and_true]
-    congr 1
-    · congr 1
-      exact patch_patch_adjacent _ _ _ _ (by unfold size at h; omega)
-    · simp only [List.length_cons]; omega
+  first
+  | (intro v
+     induction v generalizing a with
+     | nil => intro pos _; simp [Writer.writeBytes, patch_nil]
+     | cons b v ih =>
+       intro pos h
+       simp only [List.length_cons] at h
+       unfold Writer.writeBytes Writer.writeU8 Writer.step BinArchive.writeU8 validateAddress
+       have h1 : ¬ pos ≥ a.size := by omega
+       simp only [h1, Bool.false_and, Bool.not_false, Bool.true_and, decide_false, Bool.or_self]
+       simp only [Bool.false_eq_true, if_false, UInt8.ofNat_toNat]
+       have hl : ({ a with data := patch a.data pos [b] } : BinArchive).size = a.size := by
+         unfold size; exact length_patch _ _ _ (by simp; unfold size at h; omega)
+       rw [ih _ (pos + 1) (by rw [hl]; omega)]
+       simp only [Prod.mk.injEq, and_true]
+       congr 1
+       · congr 1
+         exact patch_patch_adjacent _ _ _ _ (by unfold size at h; omega)
+       · simp only [List.length_cons]; omega)
+  | (intro v pos h
+     unfold Writer.writeBytes
+     cases v with
+     | nil => simp [patch_nil]
+     | cons b v =>
+       simp only [List.isEmpty_cons, Bool.false_eq_true, if_false]
+       unfold BinArchive.writeBytes validateAddress
+       simp only [List.length_cons] at h ⊢
+       have h1 : ¬ pos ≥ a.size := by omega
+       have h2 : ¬ pos + (v.length + 1) > a.size := by omega
+       simp [h1, h2])
 
 theorem WInv.writeString_some {a : BinArchive} {pos : Nat} {cs : List Cell} (h : WInv a pos cs)
     (hfit : pos + 4 ≤ a.size) (s : Str) :
